@@ -53,6 +53,51 @@ def ron_doc(order, label='Alpha'):
             'vars: (major: Some(1), minor: Some(2), patch: Some(3), pre_release: Some((label: %s, number: Some(1))), bumped_branch: Some("main")))' % (po, label))
 
 
+def ron_string(cps):
+    out = '"'
+    for c in cps:
+        ch = chr(c)
+        out += '\\u{%x}' % c if (c < 32 or ch in '"\\' or c == 127) else ch
+    return out + '"'
+
+
+def ron_vars(d):
+    """ZervVars as RON text from SymVars.concrete()"""
+    fs = []
+    for k, val in d.items():
+        if val is None:
+            continue
+        if k == 'pre_release':
+            fs.append('pre_release: Some((label: %s, number: %s))' % (val['label'].capitalize(), 'None' if val['number'] is None else 'Some(%d)' % val['number']))
+        elif isinstance(val, bool):
+            fs.append('%s: Some(%s)' % (k, 'true' if val else 'false'))
+        elif isinstance(val, list):
+            fs.append('%s: Some(%s)' % (k, ron_string(val)))
+        else:
+            fs.append('%s: Some(%d)' % (k, val))
+    return '(%s)' % ', '.join(fs)
+
+
+def ron_doc_vars(order, vars_):
+    return ('(schema: (core: [var(Major), var(Minor), var(Patch)], extra_core: [var(Epoch), var(PreRelease), var(Post), var(Dev)], build: [var(BumpedBranch)], precedence_order: [%s]), vars: %s)'
+            % (', '.join(order), ron_vars(vars_)))
+
+
+def confirm_contents(v):
+    """the two variable assignments of the counterexample as documents: each must survive parse -> emit -> parse unchanged,
+    and different objects must not be emitted as the same document"""
+    d = native.driver()
+    ra = d.call(op='ron_roundtrip', text=native.cps(ron_doc_vars(v['order_a'], v['vars_a'])))
+    rb = d.call(op='ron_roundtrip', text=native.cps(ron_doc_vars(v['order_b'], v['vars_b'])))
+    if not (ra.get('ok') and rb.get('ok')):
+        return False, 'documents of the counterexample not accepted natively (%s / %s)' % (ra.get('err'), rb.get('err'))
+    lossy = ra['object'] != rb['object'] and ra['emitted'] == rb['emitted']
+    unstable = ra['object'] != ra.get('object2') or rb['object'] != rb.get('object2')
+    return lossy or unstable, 'variables %s vs %s: objects %s, emitted documents %s, parse-back %s' % (
+        v['vars_a'], v['vars_b'], 'differ' if ra['object'] != rb['object'] else 'equal', 'identical' if ra['emitted'] == rb['emitted'] else 'differ',
+        'differs from the object' if unstable else 'identical')
+
+
 def confirm_ser(v):
     """two documents that differ only in what the counterexample says is lost: parsed by zerv, emitted by zerv"""
     d = native.driver()
@@ -65,6 +110,20 @@ def confirm_ser(v):
         return lossy or unstable, 'precedence orders %s vs %s: objects %s, emitted documents %s, parse-back %s' % (
             v['orders'][0], v['orders'][1], 'differ' if ra['object'] != rb['object'] else 'equal', 'identical' if ra['emitted'] == rb['emitted'] else 'differ',
             'differs from the object' if unstable else 'identical')
+    if v.get('what') == 'schema':
+        comp = lambda k: {'var': 'var(%s)', 'ts': 'var(ts("%s"))', 'custom': 'var(custom("%s"))', 'str': 'str("%s")', 'uint': 'uint(%s)'}[k[0]] % (k[1],)
+        import ast
+        ka, kb = [ast.literal_eval(x) for x in v['kinds']]
+        doc = lambda k: '(schema: (core: [var(Major)], extra_core: [], build: [var(BumpedBranch), %s]), vars: (major: Some(1)))' % comp(k)
+        d = native.driver()
+        ra, rb = d.call(op='ron_roundtrip', text=native.cps(doc(ka))), d.call(op='ron_roundtrip', text=native.cps(doc(kb)))
+        if not (ra.get('ok') and rb.get('ok')):
+            return True, 'component kinds %s / %s: a document zerv would emit is not accepted back (%s / %s)' % (ka, kb, ra.get('err'), rb.get('err'))
+        lossy = ra['object'] != rb['object'] and ra['emitted'] == rb['emitted']
+        unstable = ra['object'] != ra.get('object2') or rb['object'] != rb.get('object2')
+        return lossy or unstable, 'component kinds %s vs %s: emitted documents %s, parse-back %s' % (ka, kb, 'identical' if ra['emitted'] == rb['emitted'] else 'differ', 'differs' if unstable else 'identical')
+    if v.get('what') == 'contents' and 'vars_a' in v:
+        return confirm_contents(v)
     return False, 'serialisation counterexample of kind %r has no native replay' % v.get('what')
 
 
